@@ -67,6 +67,10 @@ def run(tier="quick"):
                detail="%s:%d: %s [%s]" % (fpath, line, msg, flag))
     if not diags:
         chk.ob("I1", "conf.c", "uninit", True, loc="src/conf.c", proof="clang -Wuninitialized -Wsometimes-uninitialized: no report")
+    # F1 message formats
+    nfmt = R.check_format_args(chk, [prog.units[x] for x in ("conf.c", "file.c") if x in prog.units], "F1")
+    chk.count("format_call_sites", nfmt, floor=40)
+
     chk.count("growth_sites", nw, floor=4)
     chk.count("cap_functions", n, floor=12)
     chk.count("spawn_sites", nsp, floor=2)
